@@ -12,6 +12,14 @@ LEVEL = "model_checking"
 PARTS = 4          # driver + trace validation pipelines run side by side
 RAND = {"quick": (60, 60), "thorough": (10000, 2000)}   # seeded random splits per corpus stream / per long stream
 MAX_REPORT = 6     # VIOLATION lines per run (one per stream / kind of cut)
+COARSE = 8192      # streams longer than this: explicit partitions only, coarse atoms in the description
+# size classes x realisations of ONE large stanza (see lib/framing_corpus.py); m7a/m8a/m9a (instances of the
+# model shapes m7..m9) are the 70 KiB text, 300 KiB attribute and 1.1 MiB children streams
+SIZE_STREAMS = {"quick": ["1k-text", "1k-attr", "1k-child", "5k-text", "5k-attr", "5k-child", "70k-attr", "70k-child"],
+                "thorough": ["1k-text", "1k-attr", "1k-child", "5k-text", "5k-attr", "5k-child", "70k-attr", "70k-child",
+                             "300k-text", "300k-child", "1m-text", "1m-attr"]}
+# compositions of the large shapes that are executed: at most this many reads
+MAX_READS = {"quick": {"m7": 3, "m8": 2, "m9": 2}, "thorough": {"m7": 99, "m8": 4, "m9": 3}}
 
 
 def _negative_control(cfg):
@@ -34,13 +42,14 @@ def _job_cost(job, n):
     return job["count"] * 20
 
 
-def _stream_units(st, comps, rand_count, chunk):
+def _stream_units(st, comps, rand_count, chunk, all2=True, extra=()):
     """input lines of one corpus stream, cut into units of bounded cost; every unit starts with the
     definition of the stream (the driver then runs the one-read reference execution first)"""
     sid, desc = st["sid"], fc.describe(st)
     n = desc["n"]
     dline = {"def": {"sid": sid, "hex": fc.data(st).hex(), "s": desc}}
-    jobs = [{"sid": sid, "gen": "all2", "from": a, "to": min(a + 3999, n - 1)} for a in range(1, n, 4000)]
+    jobs = [{"sid": sid, "gen": "all2", "from": a, "to": min(a + 3999, n - 1)} for a in range(1, n, 4000)] if all2 else []
+    jobs += [dict(j, sid=sid) for j in extra]
     ends = fc.cell_ends(st)
     for c in comps:
         cuts, k = [], 0
@@ -60,6 +69,28 @@ def _stream_units(st, comps, rand_count, chunk):
         cost += c
     units.append((cost, cur))
     return units, desc
+
+
+def _coarse_unit(st, comps, thorough):
+    """a stream with a large stanza: explicit partitions only (positions relative to the large stanza, uniform
+    chunks, the selected TLC compositions), description with coarse atoms.  One unit."""
+    sid, b = st["sid"], fc.data(st)
+    jobs = fc.size_partitions(st, thorough=thorough, max_reads=300 if thorough else 24)
+    ends = fc.cell_ends(st)
+    for c in comps:
+        cuts, k = [], 0
+        for s in c["steps"][:-1]:
+            k += s["n"]
+            cuts.append(ends[k - 1])
+        jobs.append({"cuts": cuts, "src": "tlc"})
+    desc, at = fc.describe_coarse(st, [j["cuts"] for j in jobs])
+    lines = [{"def": {"sid": sid, "hex": b.hex(), "s": desc, "at": at}}] + [dict(j, sid=sid) for j in jobs]
+    # cost ~ bytes the receiver parses again and again (every read re-parses the whole remainder), in trace-line units
+    cost = 0
+    for j in jobs:
+        pts = [0] + j["cuts"] + [len(b)]
+        cost += sum(pts[1:]) // 400 + len(pts) + 2
+    return [(cost, lines)], desc
 
 
 def _run_part(chk, tag, lines, verbose=False, seed=None):
@@ -109,9 +140,10 @@ def run(chk, replay=None):
     quick = chk.tier == "quick"
     # ---- 1. design level ---------------------------------------------------------------------
     chk.mc(vf.tlc_mc("Framing.tla", "Framing.cfg", workers=4), "Framing.cfg")
-    chk.cov["negative_controls"] = [_negative_control("FramingPerRead.cfg"), _negative_control("FramingStale.cfg")]
+    chk.cov["negative_controls"] = [_negative_control("FramingPerRead.cfg"), _negative_control("FramingStale.cfg"),
+                                    _negative_control("FramingLimit.cfg")]
     # ---- 2. behaviours: every composition of every shape (model-checked on the same run) ------
-    streams = fc.model_variants() + fc.corpus_streams()
+    streams = fc.model_variants() + fc.corpus_streams() + fc.size_model_variants() + fc.size_streams(SIZE_STREAMS[chk.tier])
     if not quick:
         streams += fc.long_streams(chk.seed)
     by_sid = {st["sid"]: st for st in streams}
@@ -119,6 +151,7 @@ def run(chk, replay=None):
         lines = [b for b in vf.read_ndjson(replay) if "def" in b or ("sid" in b and ("cuts" in b or "gen" in b))]
         parts = [lines]
         descs = {b["def"]["sid"]: b["def"]["s"] for b in lines if "def" in b}
+        coarse = {b["def"]["sid"] for b in lines if "def" in b and b["def"].get("at")}
     else:
         gen, st = vf.tlc_gen("FramingGen.tla", "FramingGenAll.cfg", steps_key=None, keep_prefixes=True)
         shapes = {b["sid"]: b["cells"] for b in gen if "cells" in b}
@@ -132,13 +165,20 @@ def run(chk, replay=None):
             m = s["sid"][:2]
             if s["sid"].startswith("m") and fc.shape_of(s) != shapes.get(m):
                 raise vf.MachineryError(f"corpus stream {s['sid']} does not instantiate the cells of model shape {m}")
-        units, descs = [], {}
+        units, descs, coarse = [], {}, set()
         chunk = 70000 if quick else 150000
         for s in streams:
             is_model = s["sid"].startswith("m")
             # quick: the compositions of a shape go to its first variant; thorough: to all variants
             use = comps.get(s["sid"][:2], []) if is_model and (not quick or s["sid"].endswith("a")) else []
-            u, desc = _stream_units(s, use, RAND[chk.tier][s["sid"].startswith("L")], chunk)
+            if len(fc.data(s)) > COARSE:
+                mr = MAX_READS[chk.tier].get(s["sid"][:2], 0)
+                u, desc = _coarse_unit(s, [c for c in use if len(c["steps"]) <= mr], not quick)
+                coarse.add(s["sid"])
+            else:
+                u, desc = _stream_units(s, use, RAND[chk.tier][s["sid"].startswith("L")], chunk,
+                                        all2=not (quick and s.get("class") == "size" and len(fc.data(s)) > 2048),
+                                        extra=fc.size_partitions(s) if s.get("class") == "size" else [])
             descs[s["sid"]] = desc
             units += u
         nparts = max(PARTS, -(-sum(c for c, _ in units) // chunk))
@@ -178,18 +218,24 @@ def run(chk, replay=None):
     chk.cov["executions_by_source"] = by_src
     classes = {}
     for sid, d in descs.items():
-        if sid in by_sid:
+        if sid in by_sid and sid not in coarse:
             for p in range(1, d["n"]):
                 c = fc.cut_class(by_sid[sid], d, p)
                 classes[c] = classes.get(c, 0) + 1
     chk.cov["two_way_cuts_by_kind"] = classes
-    chk.cov["bytes_total"] = sum(d["n"] for d in descs.values())
+    chk.cov["bytes_total"] = sum(len(fc.data(by_sid[sid])) if sid in by_sid else d["n"] for sid, d in descs.items())
+    chk.cov["size_classes"] = [{"stream": st["sid"], "what": st["note"], "bytes": len(fc.data(st)),
+                                "utf16_units": len(fc.data(st).decode("utf-8").encode("utf-16-le")) // 2,
+                                "largest_stanza_bytes": fc.big_element(st)[1] - fc.big_element(st)[0]}
+                               for st in streams if st.get("class") == "size" and st["sid"] in descs]
     for s in samples.values():
         chk.sample(s)
     chk.cov["rule"] = ("Framing.cfg model-checked; FramingGenAll.cfg enumerates (and model-checks) every composition of the cells of 6 "
                        "stream shapes into reads; each composition is mapped to byte offsets of a byte-exact instance of its shape; "
                        "additionally for every corpus stream: EVERY 2-way split at every byte offset, one byte at a time, seeded random "
-                       "k-way splits. Every execution runs a fresh QXmpp::Private::XmppSocket over a loopback TCP connection (chunk = "
+                       "k-way splits. Size classes: streams with ONE stanza of 1 KiB .. 1.1 MiB (text / attribute value / child "
+                       "elements, multi-byte characters) split after k*4 KiB, around k*64 KiB (bytes and UTF-16 units), at the stanza's "
+                       "first and last bytes and into uniform chunks of 4 KiB .. 64 KiB+1. Every execution runs a fresh QXmpp::Private::XmppSocket over a loopback TCP connection (chunk = "
                        "read by construction) and is validated by FramingTrace.tla against the logged one-read run of the same stream. "
                        "An execution is distinct by (stream, set of cut offsets).")
     # ---- 5. violations: one witness per (stream, predicate, kind of cut), confirmed by a re-run --
@@ -200,14 +246,15 @@ def run(chk, replay=None):
         for x in v:
             o = resets[x["case"]]
             st = by_sid.get(o["sid"])
-            d = descs[o["sid"]]
-            cl = [fc.cut_class(st, d, p) if st else "?" for p in o["cuts"]]
+            d = {"elems": fc.elements(st)[0]} if st else None      # byte offsets (descs may have coarse atoms)
+            cl = [fc.cut_class(st, d, p) if st else "?" for p in o["cuts"][:40]]
             key = (o["sid"], x["prop"], _label(cl))
             cand = (len(o["cuts"]), o["cuts"], x, o, cl, r["trace"])
             if key not in groups or cand[:2] < groups[key][:2]:
                 groups[key] = cand
     edge = lambda sid: (by_sid.get(sid) or {}).get("class", "plain") != "plain"
-    order = sorted(groups, key=lambda k: (edge(k[0]), edge(k[0]) and k[2] == "mb", groups[k][0], k[2] != "mb", descs[k[0]]["n"], k[0], k[1]))
+    nbytes = lambda sid: len(fc.data(by_sid[sid])) if sid in by_sid else descs[sid]["n"]
+    order = sorted(groups, key=lambda k: (edge(k[0]), edge(k[0]) and k[2] == "mb", groups[k][0], k[2] != "mb", nbytes(k[0]), k[0], k[1]))
     # one witness per kind of defect first (kind of cut; each unusual-but-valid stream is its own kind), then more streams
     seen_lab, first, rest = set(), [], []
     for k in order:
